@@ -10,6 +10,7 @@ import (
 	"strings"
 
 	corev1 "k8s.io/api/core/v1"
+	resourceapi "k8s.io/api/resource/v1"
 
 	"github.com/NVIDIA/KAI-scheduler/pkg/scheduler/api/common_info"
 	"github.com/NVIDIA/KAI-scheduler/pkg/scheduler/api/node_info"
@@ -20,6 +21,8 @@ import (
 	"github.com/NVIDIA/KAI-scheduler/pkg/scheduler/framework"
 	rs "github.com/NVIDIA/KAI-scheduler/pkg/scheduler/plugins/proportion/resource_share"
 	putils "github.com/NVIDIA/KAI-scheduler/pkg/scheduler/plugins/proportion/utils"
+
+	"verif/mc/world"
 )
 
 const eps = 1e-6
@@ -64,11 +67,15 @@ func vecEq(a, b resource_info.ResourceVector) bool {
 func taskLine(t *pod_info.PodInfo) string {
 	gs := append([]string{}, t.GPUGroups...)
 	sort.Strings(gs)
+	// ResourceClaimInfo: pod-level claim name -> devices (what a BindRequest of this task would carry)
 	claims := []string{}
 	for k, c := range t.ResourceClaimInfo {
 		alloc := "nil"
-		if c != nil && c.Allocation != nil {
-			alloc = fmt.Sprintf("%v", c.Allocation.Devices.Results)
+		if c != nil {
+			alloc = world.AllocationString(c.Allocation)
+			if c.Name != k {
+				alloc += "(name=" + c.Name + ")"
+			}
 		}
 		claims = append(claims, k+"="+alloc)
 	}
@@ -178,7 +185,71 @@ func Dump(ssn *framework.Session) string {
 			fmt.Fprintf(&sb, "Q %s allocated gpu=%s cpu=%.3f mem=%.0f\n", qn, gpu, a.Cpu(), a.Memory())
 		}
 	}
+	dumpClaims(&sb, ssn)
 	return sb.String()
+}
+
+func claimLine(c *resourceapi.ResourceClaim) string {
+	res := []string{}
+	for _, r := range c.Status.ReservedFor {
+		res = append(res, r.Resource+"/"+r.Name+"#"+string(r.UID))
+	}
+	sort.Strings(res)
+	return fmt.Sprintf("%s/%s alloc=%s reservedFor=%v", c.Namespace, c.Name, world.AllocationString(c.Status.Allocation), res)
+}
+
+// dumpClaims writes the scheduler's view of resource claims: the snapshot list of the session
+// ("CS" lines) and, when Dynamic Resource Allocation is on, the live claim view the
+// dynamicresources plugin allocates from — the shared DRA manager's claims with the session's
+// virtual allocations / de-allocations assumed on top ("C" lines), its index of allocated devices
+// ("CD") and the claims with an allocation in flight ("CP"). Nothing is written (and the DRA
+// manager is not touched) when the feature is off.
+func dumpClaims(sb *strings.Builder, ssn *framework.Session) {
+	snap := []string{}
+	for _, c := range ssn.ClusterInfo.ResourceClaims {
+		snap = append(snap, claimLine(c))
+	}
+	sort.Strings(snap)
+	for _, l := range snap {
+		fmt.Fprintf(sb, "CS %s\n", l)
+	}
+	plugins := ssn.InternalK8sPlugins()
+	if plugins == nil || !plugins.Features.EnableDynamicResourceAllocation || plugins.FrameworkHandle == nil {
+		return
+	}
+	mgr := plugins.FrameworkHandle.SharedDRAManager()
+	if mgr == nil {
+		return
+	}
+	claims, err := mgr.ResourceClaims().List()
+	if err != nil {
+		fmt.Fprintf(sb, "C error: %v\n", err)
+		return
+	}
+	live, pending := []string{}, []string{}
+	for _, c := range claims {
+		live = append(live, claimLine(c))
+		if mgr.ResourceClaims().ClaimHasPendingAllocation(c.UID) {
+			pending = append(pending, c.Namespace+"/"+c.Name)
+		}
+	}
+	sort.Strings(live)
+	sort.Strings(pending)
+	for _, l := range live {
+		fmt.Fprintf(sb, "C %s\n", l)
+	}
+	devs, err := mgr.ResourceClaims().ListAllAllocatedDevices()
+	if err != nil {
+		fmt.Fprintf(sb, "CD error: %v\n", err)
+		return
+	}
+	ds := []string{}
+	for d := range devs {
+		ds = append(ds, d.String())
+	}
+	sort.Strings(ds)
+	fmt.Fprintf(sb, "CD allocatedDevices=%v\n", ds)
+	fmt.Fprintf(sb, "CP pendingAllocations=%v\n", pending)
 }
 
 type stubAffinity struct{ name string }
